@@ -22,7 +22,6 @@ On top of AutoEvaluator the evaluator used here
 from __future__ import annotations
 
 import ast
-from fractions import Fraction
 
 from . import e2_formula as F
 from .core import Unsupported
@@ -283,7 +282,6 @@ def _binop18(node, a, b, ev):
 
 
 _REDUCE = {"np.any": "any", "any": "any", "np.all": "all", "all": "all"}
-_NONZERO = {"np.nonzero", "np.where", "np.argwhere_not"}
 _ATTRFN = {"np.shape": "shape", "np.size": "size", "np.ndim": "ndim"}
 _CONVERT = {"np.array", "np.asarray", "np.ascontiguousarray", "np.asanyarray", "np.require"}
 
@@ -424,12 +422,6 @@ class PathEval(AutoEvaluator):
                 raise Unsupported(v.why)
         return pos, kw
 
-    def _local_root(self, node):
-        n = node
-        while isinstance(n, (ast.Attribute, ast.Subscript)):
-            n = n.value
-        return n.id if isinstance(n, ast.Name) and n.id in self.env else None
-
     def _hook(self, node, ev):
         try:
             return self._hook2(node)
@@ -440,9 +432,8 @@ class PathEval(AutoEvaluator):
         f = node.func
         d = dotted(f)
         meth = f.attr if isinstance(f, ast.Attribute) else None
-        on_value = meth is not None and (d is None or self._local_root(f.value) is not None)
-        if isinstance(f, ast.Attribute) and d is not None and d.split(".")[0] in self.env:
-            on_value = True
+        # a method call on a value of the function (a local, a parameter, an expression) - not on a module such as np
+        on_value = meth is not None and (d is None or d.split(".")[0] in self.env)
         # reductions
         if d in _REDUCE and len(node.args) == 1 and not node.keywords:
             (x,), _ = self._args(node)
@@ -590,9 +581,6 @@ class Path:
                 seen.add(k)
                 out.append((canon, d, node))
         return out
-
-    def consistent(self, **_):
-        return True
 
     def E(self, text):
         return self.ev.expr(text)
